@@ -78,7 +78,7 @@ def iscloseDemeProportions (t : Tol) (an : List String) (ap : List Q) (bn : List
 
 def qsumL (xs : List Q) : Q := xs.foldl (· + ·) 0
 
-/-- `Pulse.assert_close`; the final proportions comparison uses the *default* tolerances -/
+/-- `Pulse.assert_close` (the per-source comparison receives the requested tolerances) -/
 def Pulse.isclose (t : Tol) (a b : Pulse) : Bool :=
   a.sources.length == b.sources.length
   && a.sources.all (fun s => b.sources.contains s)
@@ -87,7 +87,7 @@ def Pulse.isclose (t : Tol) (a b : Pulse) : Bool :=
   && closeQ t a.time b.time
   && a.proportions.length == b.proportions.length
   && closeQ t (qsumL a.proportions) (qsumL b.proportions)
-  && iscloseDemeProportions defaultTol a.sources a.proportions b.sources b.proportions
+  && iscloseDemeProportions t a.sources a.proportions b.sources b.proportions
 
 /-- `Deme.assert_close`: equal numbers of epochs, compared pairwise -/
 def Deme.isclose (t : Tol) (a b : Deme) : Bool :=
